@@ -317,6 +317,22 @@ def check(repo, ctx, index, purity):
                 ctx.check(ok, 'R6.4', p_, q_, c, f'stage time {tname} is forwarded unchanged to {U.call_name(c)}',
                           f'{U.call_name(c)} is not given the stage time the iterator supplied: a time-dependent right-hand side is evaluated at the wrong time')
     ctx.floor('R6.4', n64, 4)
+    # R6.5 the default flatten functions hand the iterator fresh arrays: a stage derivative must not alias a buffer the model re-uses
+    GMP = 'kawin/GenericModel.py'
+    n65 = 0
+    for qf in ('GenericModel.flattenX', 'Coupler.flattenX'):
+        try:
+            ff = repo.func(GMP, qf)
+        except AnchorMissing as e:
+            ctx.undecided('R6.5', GMP, qf, 0, str(e))
+            continue
+        n65 += 1
+        _, rets_alias = purity.analyse(GMP, qf, ff, 0)
+        rr = [r for r in ast.walk(ff) if isinstance(r, ast.Return)]
+        ctx.check(not rets_alias, 'R6.5', GMP, qf, rr[0] if rr else ff, 'the flattened array is a fresh copy on every path (np.hstack / np.concatenate), never a view of the model\'s arrays',
+                  'the flattened array can be a view of what the model returned: stage derivatives k1..k4 then alias one buffer when the model re-uses it, and the state handed to the iterator aliases the model state',
+                  construct='; '.join(U.src(r) for r in rr))
+    ctx.floor('R6.5', n65, 2)
     # R6.3 purity (callables given to an iterator are arbitrary programs: what they return may alias what they got)
     purity.opaque_params_alias = True
     for q, f in its:
